@@ -184,7 +184,11 @@ MultiS == ChN(2, <<Sp(<<O2>>), Const, Sp(<<O2, O2>>)>>, FALSE, TRUE, 0, 1)
 FlA == FlN(0, 10, 3)
 Deep3 == Ch(1, <<Const, Sp(<<Deep>>)>>, TRUE, FALSE)                          \* conditional chain of depth 3
 Deep3M == Ch(1, <<Const, Sp(<<CondM>>), Sp(<<Deep, O2>>)>>, TRUE, FALSE)       \* ... ending in a multi-choice / a pair
-ViewDP == {O2, O2a, O3i, O2f, M23, M23n, M23i, M23s, M22f, M22fs, M22n, Deep, DeepM, CondM, CondN, MultiC, MultiS, Deep3, Deep3M}
+\* two-digit candidate indices: 12 / 11 candidates (the textual 'i/n' forms must carry every digit)
+Big12 == Ch(1, ConstSeq(11) \o <<Sp(<<O2>>)>>, TRUE, FALSE)                 \* candidate 11 opens a sub-space
+Big12L == ChN(1, ConstSeq(12), TRUE, FALSE, 0, 1)                           \* with string literals
+Big11m == Ch(2, ConstSeq(11), TRUE, TRUE)                                   \* sorted pair out of 11
+ViewDP == {Big12, Big12L, Big11m, O2, O2a, O3i, O2f, M23, M23n, M23i, M23s, M22f, M22fs, M22n, Deep, DeepM, CondM, CondN, MultiC, MultiS, Deep3, Deep3M}
 ViewPair == {O2a, O3i, M23n, M22fs, Deep, CondN, MultiC, M23i, Deep3}
 ViewInf == {FlA, Cu, F01, Ch(1, <<Sp(<<F01>>), Const>>, TRUE, FALSE), Ch(2, <<Sp(<<F01>>), Const, Sp(<<Cu>>)>>, TRUE, FALSE)}
 OkView(S) == { s \in WF(S) : UniqueNames(s) /\ (Size(s) = INF \/ Size(s) <= MaxSize) }
@@ -192,6 +196,7 @@ U_views_quick == OkView(
      { Sp(<<x>>) : x \in ViewDP \cup ViewInf }
   \cup { Sp(<<x, y>>) : x \in ViewPair, y \in ViewPair }
   \cup { Sp(<<x, y>>) : x \in {O2a, M23, FlA}, y \in ViewInf }
+  \cup { Sp(<<Big12, O2a>>), Sp(<<O2, Big12L>>) }
   \cup { Sp(<<x, y, z>>) : x \in {O2a, M23}, y \in {O3i, MultiC}, z \in {M22n, Deep, FlA} })
 U_views_thorough == OkView(
      U_views_quick
